@@ -1,4 +1,4 @@
 #!/bin/sh
 # run every seeded change given as arguments, sequentially (they share the scratch worktree)
 cd /verif
-for s in "$@"; do echo "=== $s"; python3 tools/seedtest.py "$s" 2>&1 | tail -40; done
+for s in "$@"; do echo "=== $s"; python3 tools/seedtest.py "$s" $SEED_ARGS 2>&1 | tail -40; done
